@@ -18,6 +18,8 @@ int  simfs_open_fds(void);               /* descriptors opened through mkstemp a
 int  simfs_open_dirs(void);
 void simfs_tempfile_check_at_return(int fd);   /* oracle hook: called by workloads after spiftool_temp_file returns */
 int  simfs_fd_mode(int fd);
+const char *simfs_last_temp_name(void);  /* the name the last successful mkstemp produced, as written into its template */
+int  simfs_is_temp(const char *path);   /* the path names a live file created by mkstemp */
 void simfs_set_mkstemp_mode(int m);    /* 0600 (modern libc) or 0666 (historic: mode left to the umask) */
 
 /* name service table */
